@@ -14,9 +14,17 @@ import io
 import json
 import math
 import os
+import resource
+import signal
 import sys
 import traceback
 import warnings
+
+# hard resource bounds for this process and everything it starts (g++): 3 GB of address space
+try:
+    resource.setrlimit(resource.RLIMIT_AS, (3 << 30, 3 << 30))
+except (ValueError, OSError):
+    pass
 
 import numpy
 
@@ -38,15 +46,40 @@ _orig_format_python = utils.format_python
 _orig_format_cpp = utils.format_cpp
 
 
+class TooLarge(Exception):
+    """harness limit: the emitted text is too long to be formatted / compiled within the resource bounds"""
+
+
+MAX_TEXT = 200_000
+
+
 def _fp(code):
     _last_raw["text"] = code
+    if len(code) > MAX_TEXT:
+        raise TooLarge(len(code))
     return _orig_format_python(code)
 
 
 def _fc(code):
     _last_raw["text"] = code
+    if len(code) > MAX_TEXT:
+        raise TooLarge(len(code))
+    if any(os.path.exists(os.path.join(d, "clang-format")) for d in os.environ.get("PATH", "").split(os.pathsep) if d):
+        return code  # never start clang-format from the harness (memory); unformatted text is what is compared
     with contextlib.redirect_stdout(io.StringIO()):
         return _orig_format_cpp(code)
+
+
+class CaseTimeout(Exception):
+    pass
+
+
+def _alarm(signum, frame):
+    raise CaseTimeout()
+
+
+signal.signal(signal.SIGALRM, _alarm)
+CASE_SECONDS = 60
 
 
 utils.format_python = _fp
@@ -378,6 +411,22 @@ def prepare_graph(case, recipe_or_none, ctx, tname, target, res):
 
 
 def run_case(case, cfg):
+    """one case under a wall-clock and memory bound; a graph whose emitted text is too large / too slow
+    to handle is reported as skipped, never as a violation"""
+    signal.alarm(CASE_SECONDS)
+    try:
+        res = run_case_(case, cfg)
+    except (CaseTimeout, MemoryError, RecursionError) as ex:
+        res = dict(id=case["id"], kind=case["kind"], status="skipped-too-large", error=type(ex).__name__,
+                   target=(case.get("recipe") or {}).get("target", case.get("target")))
+    finally:
+        signal.alarm(0)
+    if any(p.get("error") in ("TooLarge", "MemoryError", "RecursionError") for p in res.get("prints", [])):
+        res = dict(id=case["id"], kind=case["kind"], status="skipped-too-large", error="TooLarge", target=res.get("target"))
+    return res
+
+
+def run_case_(case, cfg):
     res = dict(id=case["id"], kind=case["kind"])
     try:
         if case["kind"] == "history":
@@ -430,6 +479,8 @@ def run_case(case, cfg):
         if cfg.get("search", True) and not res.get("warned"):
             res["exec"] = cexec.prepare(case, g, target, tname, fname, prints, cfg)
         return res
+    except (CaseTimeout, MemoryError, RecursionError):
+        raise
     except Exception:  # noqa: BLE001
         res["status"] = "worker-exception"
         res["error"] = traceback.format_exc()[-1500:]
